@@ -1,6 +1,7 @@
 // Interpreter of abstract operation scripts over a real ezc3d::c3d (public API only).
 #pragma once
 #include <memory>
+#include <set>
 #include <string>
 #include <vector>
 #include "case.hpp"
@@ -60,12 +61,15 @@ struct Listener {
 struct Interp {
     std::unique_ptr<ezc3d::c3d> obj;
     std::vector<ezc3d::DataNS::Frame> slots;
+    long long slotAlias[4] = {-1, -1, -1, -1};       // index of the stored frame whose point / analog blocks the slot shares (copy of a stored frame), or -1
+    std::set<size_t> gapIdx;                         // stored frames without sub-frames because the CALLER stored them so: left empty by an indexed add beyond the end, or a frame without analogs (class of KF-GAPCOL; frames read from a file never count)
     std::string slotDev[4];                          // deviation carried by each caller slot ("match" = none)
     bool namesUpper = false;                         // after a load, group/parameter names exist in upper case: the caller refers to them as such
     bool analogGroupEmpty = false;                   // object loaded from a file whose ANALOG group has no parameter
     ParamSpec specOf(const Op &op) const;
     std::string groupOf(long long g) const;
     bool halted = false;                             // history ended by an accepted undocumented deviation
+    std::vector<ParamSpec> lastReuse;               // what each successive set() of 'preuse' asked for (one Parameter object reused)
     SParam lastSelfParam;                           // content of the object's own parameter handed back by 'selfparam' (taken before the call)
     std::vector<SFrame> lastColModel;               // content intended for each frame of lastCol (recorded while it was built)
     std::vector<ezc3d::DataNS::Frame> lastCol;       // caller's column vector of the last pcol/acol (kept for reuse)
